@@ -27,6 +27,7 @@ func init() {
 		Level: "exploration",
 		Rule: "stacks generated as programs: depth 1-8, any order, repeats allowed, over {stream, trace, connlimit, ratelimit, breaker, roundrobin (with and without sticky cookie), rebalancer, buffer}; innermost handler scripts: status (incl. implicit, 204, 304), 0-5 headers incl. multi-valued, body 0..1.5MB in chunks, flush between chunks with a client handshake, hijack-and-write-raw; " +
 			"non-intervening stacks are compared with the bare handler served by its own server (differential: status, end-to-end headers, body, exactly one invocation, flush effective unless the stack contains the buffer, hijack usable); intervening configurations are made by pre-driving through the whole stack (drain the bucket on the frozen clock, hold the only slot, trip the breaker, empty the pool, oversize body) and must yield one complete response with the documented status without invoking the handler; " +
+			"flush scripts may flush the head before any body byte and wait until the client holds it; buffers in transparent stacks get retry expressions that are false for the answer and request-size limits equal to the body sent; bodies may be written with io.Copy; " +
 			"non-trivial = stack of depth >= 2, or flush/hijack script, or intervening configuration; distinct by (stack program, script, mode)",
 		Assumptions: []string{"real sockets; frozen library clock for the limiter/breaker state", "framing headers and sniffed Content-Type are not compared; the sticky cookie is a documented addition", "flush handshake watchdog 20s (generous; firing means the first chunk never arrived while the handler was waiting)"},
 		Parts:       []Part{{Name: "stacks", Shards: 12, Fn: c20Stacks}},
@@ -43,6 +44,8 @@ type c20Script struct {
 	HeadFlush bool `json:"flush_head_before_body,omitempty"`
 	// the body is written with io.Copy from a plain reader (uses the writer's ReadFrom when it has one)
 	Copy bool `json:"io_copy,omitempty"`
+	// recorder mode: after the first chunk the handler flushes through http.NewResponseController(w).Flush()
+	RCFlush bool `json:"response_controller_flush,omitempty"`
 }
 
 // watchdog of the head-flush handshake (generous; shortened after it has fired once so that a broken tree is reported fast)
@@ -57,6 +60,7 @@ type c20Inner struct {
 	gotFirst chan struct{}
 	gotHead  chan struct{}
 	headBad  atomic.Int64
+	rcErr    atomic.Value // error text of the ResponseController flush ("" = nil)
 	hold     chan struct{}
 	entered  chan struct{}
 	flushBad atomic.Int64
@@ -149,6 +153,13 @@ func (in *c20Inner) ServeHTTP(w http.ResponseWriter, req *http.Request) {
 			_, _ = io.Copy(w, struct{ io.Reader }{bytes.NewReader(bytes.Repeat(tag, n/len(tag)+1)[:n])})
 		} else {
 			_, _ = w.Write(bytes.Repeat(tag, n/len(tag)+1)[:n])
+		}
+		if s.RCFlush && ci == 0 {
+			if err := http.NewResponseController(w).Flush(); err != nil {
+				in.rcErr.Store(err.Error())
+			} else {
+				in.rcErr.Store("")
+			}
 		}
 		if s.Kind == "flush" && ci == 0 {
 			if f, ok := w.(http.Flusher); ok {
@@ -358,6 +369,7 @@ func c20Stacks(c *Ctx) {
 			c.Count("requests_with_body_at_the_limit", 1)
 		}
 		script.Copy = r.IntN(4) == 0
+		script.RCFlush = recorderMode && script.Kind == "plain" && r.IntN(2) == 0
 		explicitCT := r.IntN(3) != 0
 		if explicitCT {
 			script.Headers = append(script.Headers, [2]string{"Content-Type", "application/x-verif"})
@@ -513,6 +525,14 @@ func c20Stacks(c *Ctx) {
 				}
 				c.Violation(key, sfmt("recorder: through the stack status %d with %d body bytes, the bare handler gives %d with %d", got.Code, got.Body.Len(), want.Code, want.Body.Len()), desc)
 				return
+			}
+			if script.RCFlush && len(script.Chunks) > 0 && !hasBuffer {
+				// the recorder can flush (it has Flush, not FlushError): a flush through the ResponseController must arrive
+				c.Count("response_controller_flushes_checked", 1)
+				if e, _ := inner.rcErr.Load().(string); e != "" || !got.Flushed {
+					c.Violation("flush/response-controller", sfmt("recorder: the handler flushed with http.NewResponseController(w).Flush(): error %q, flush reached the client-side writer: %v (the stack contains no buffer)", e, got.Flushed), desc)
+					return
+				}
 			}
 			gh, bh := got.Header().Clone(), want.Header().Clone()
 			gh.Del("Set-Cookie")
